@@ -84,7 +84,20 @@ func buildQuery(q *Query) bluge.Query {
 }
 
 func buildAgg(a *Agg) search.Aggregation {
-	src := search.Field(a.Field)
+	fs := search.Field(a.Field)
+	var src search.NumericValuesSource = fs
+	var tsrc search.TextValuesSource = fs
+	var dsrc search.DateValuesSource = fs
+	if fl := a.Filter; fl != nil {
+		src = aggregations.FilterNumeric(fs, fl.keepNum)
+		dsrc = aggregations.FilterDate(fs, func(t time.Time) bool { return fl.keepDate(t.UnixNano()) })
+		keep := func(b []byte) bool { return fl.keepStr(string(b)) }
+		if fl.Alt {
+			tsrc = search.FilterText(fs, keep)
+		} else {
+			tsrc = aggregations.FilterText(fs, keep)
+		}
+	}
 	switch a.Kind {
 	case "sum":
 		return aggregations.Sum(src)
@@ -97,11 +110,11 @@ func buildAgg(a *Agg) search.Aggregation {
 	case "wavg":
 		return aggregations.WeightedAvg(src, search.Field(a.Weight))
 	case "card":
-		return aggregations.Cardinality(src)
+		return aggregations.Cardinality(tsrc)
 	case "quant":
 		return aggregations.Quantiles(src)
 	case "terms":
-		t := aggregations.NewTermsAggregation(src, a.Size)
+		t := aggregations.NewTermsAggregation(tsrc, a.Size)
 		for i := range a.Sub {
 			t.AddAggregation(fmt.Sprintf("m%d", i), buildAgg(&a.Sub[i]))
 		}
@@ -116,7 +129,7 @@ func buildAgg(a *Agg) search.Aggregation {
 		}
 		return r
 	case "dranges":
-		r := aggregations.DateRanges(src)
+		r := aggregations.DateRanges(dsrc)
 		for i, rg := range a.DRanges {
 			var s, e time.Time
 			if !rg.NoStart {
@@ -351,7 +364,7 @@ func checkMetric(a *Agg, calc search.Calculator, docs []*Doc, path string, st *s
 		mn, mx := math.Inf(1), math.Inf(-1)
 		n := 0
 		for _, d := range docs {
-			for _, v := range d.Num[a.Field] {
+			for _, v := range a.num(d) {
 				sum += v
 				abs += math.Abs(v)
 				mn, mx = math.Min(mn, v), math.Max(mx, v)
@@ -403,7 +416,7 @@ func checkMetric(a *Agg, calc search.Calculator, docs []*Doc, path string, st *s
 			} else if len(d.Num[a.Field]) > 0 {
 				st.missingWeight++
 			}
-			for _, v := range d.Num[a.Field] {
+			for _, v := range a.num(d) {
 				num += v * w
 				den += w
 				abs += math.Abs(v * w)
@@ -431,7 +444,7 @@ func checkMetric(a *Agg, calc search.Calculator, docs []*Doc, path string, st *s
 		sk := hyperloglog.New16()
 		distinct := map[string]bool{}
 		for _, d := range docs {
-			for _, v := range d.Kw[a.Field] {
+			for _, v := range a.kw(d) {
 				sk.Insert([]byte(v))
 				distinct[v] = true
 			}
@@ -449,7 +462,7 @@ func checkMetric(a *Agg, calc search.Calculator, docs []*Doc, path string, st *s
 		mn, mx := math.Inf(1), math.Inf(-1)
 		n := 0
 		for _, d := range docs {
-			for _, v := range d.Num[a.Field] {
+			for _, v := range a.num(d) {
 				mn, mx = math.Min(mn, v), math.Max(mx, v)
 				n++
 			}
@@ -510,7 +523,7 @@ func checkAgg(a *Agg, calc search.Calculator, docs []*Doc, path string, st *stat
 		byTerm := map[string][]*Doc{}
 		multi := false
 		for _, d := range docs {
-			vs := d.Kw[a.Field]
+			vs := a.kw(d)
 			if len(vs) > 1 {
 				multi = true
 			}
@@ -550,7 +563,7 @@ func checkAgg(a *Agg, calc search.Calculator, docs []*Doc, path string, st *stat
 				return vlib.Failf("terms-not-top", "%s: term %q with %d matches is not returned although a returned bucket has only %d", path, term, len(members), smallest)
 			}
 		}
-		if a.Field == "k1" && !multi {
+		if a.Field == "k1" && !multi && a.Filter == nil {
 			// single-valued field: the remainder accounts for every match not in a returned bucket
 			if got := tc.Other(); got != len(docs)-sum {
 				return vlib.Failf("terms-other", "%s: Other() = %d, matches %d - returned %d = %d", path, got, len(docs), sum, len(docs)-sum)
@@ -575,7 +588,7 @@ func checkAgg(a *Agg, calc search.Calculator, docs []*Doc, path string, st *stat
 			var members []*Doc
 			for _, d := range docs {
 				k := 0
-				for _, v := range d.Num[a.Field] {
+				for _, v := range a.num(d) {
 					if v >= float64(rg.Lo) && v < float64(rg.Hi) {
 						members = append(members, d)
 						k++
@@ -606,7 +619,7 @@ func checkAgg(a *Agg, calc search.Calculator, docs []*Doc, path string, st *stat
 			var members []*Doc
 			for _, d := range docs {
 				k := 0
-				for _, v := range d.Date[a.Field] {
+				for _, v := range a.date(d) {
 					if (rg.NoStart || v >= rg.Start) && (rg.NoEnd || v < rg.End) {
 						members = append(members, d)
 						k++
@@ -677,6 +690,12 @@ func aggClasses(aggs []Agg, st *stats) {
 		}
 		for _, s := range a.Sub {
 			st.class("nested:" + s.Kind)
+			if s.Filter != nil {
+				st.class("filtered-source:nested-" + s.Kind)
+			}
+		}
+		if a.Filter != nil {
+			st.class("filtered-source:" + a.Kind)
 		}
 		for _, f := range a.treeFields() {
 			if f == "x" {
